@@ -4,7 +4,7 @@ import shapes, nslgen, gentyped, vmcases, ircoq
 from nslgen import *
 from props import c01
 
-STATIC = ["Model/IR.v", "Model/VM.v", "Model/WfIR.v", "Model/Opt.v", "Proofs/WfIRProofs.v", "Proofs/OptProofs.v"]
+STATIC = ["Model/IR.v", "Model/VM.v", "Model/WfIR.v", "Model/Opt.v", "Proofs/WfIRProofs.v", "Proofs/OptProofs.v", "Proofs/ForwardProofs.v", "Harness/FwdLib.v"]
 
 
 def targeted(rng):
@@ -92,6 +92,34 @@ def run(ctx):
         m, params, globs, ret = vg.program()
         text, _ = nslgen.render(m, "canonical", rng)
         progs.append((m, vg.calls(params, globs, 2), text, "vector"))
+    # straight-line functions (one block: declarations, assignments to locals / parameters / globals / elements, a return): the fragment of the
+    # preservation theorem; every assignment is followed by a read of the assigned variable so that the pass forwards
+    for k in range(40 if ctx.tier == "quick" else 1000):
+        tg = gentyped.TGen(rng, floats=(k % 4 != 0), arrays=(k % 3 == 0), structs=False, calls=False, side_effects=False, max_depth=2)
+        genv = gentyped.Env(); genv.vars = {"g0": "int", "g1": "float"}
+        env = gentyped.Env(genv); env.bounds = {}
+        params = [("int", "a"), ("float", "b")]
+        for t, nm in params:
+            env.vars[nm] = t
+        body = []
+        for j in range(rng.choice([2, 3, 4, 5])):
+            t = rng.choice(["int", "float"]) if k % 4 != 0 else "int"
+            c = rng.random()
+            if c < 0.45:
+                x = "v%d" % j
+                body.append(Decl(t, x, tg.expr(env, t, 2, pure=True))); env.vars[x] = t
+            else:
+                cands = [n for n, ty in env.all().items() if ty == t]
+                if cands:
+                    x = rng.choice(cands)
+                    body.append(ES(A(V(x), tg.expr(env, t, 2, pure=True), rng.choice(["=", "=", "+=", "*="]))))
+        rt = rng.choice(["int", "float"]) if k % 4 != 0 else "int"
+        body.append(Ret(tg.expr(env, rt, 2, pure=True)))
+        m = Module([Global("int", "g0"), Global("float", "g1"), Func("f", [Arg(t, nm) for t, nm in params], rt, Block(body), export=True)])
+        text, _ = nslgen.render(m, "canonical", rng)
+        calls = [{"fn": "f", "args": {"a": rng.randrange(-5, 8), "b": rng.choice([0.5, -1.25, 3.0, 0.1])}, "globals": {"g0": rng.randrange(-3, 6), "g1": rng.choice([0.25, 1.5])} if c_ == 0 else {},
+                  "read_globals": ["g0", "g1"]} for c_ in range(2)]
+        progs.append((m, calls, text, "straight-line"))
     jobs = []
     for (m, calls, text, name) in progs:
         jobs.append(vmcases.job(text, calls, optimize=False))
@@ -115,10 +143,17 @@ def run(ctx):
         p1 = ircoq.program({"functions": r1["ir"]["functions"], "globals": r1["ir"]["globals"]})
         defs, run_expr = vmcases.case_block(k, m, r1, calls, with_spec=True, with_ir=False)     # optimised module vs VM model and reference semantics
         defs += "Definition U_%d : program := %s.\n" % (k, p0)
-        blocks.append((defs, "(%s + opt_case U_%d P_%d + wf_case P_%d)" % (run_expr, k, k, k))); meta.append((text, calls, r1, name))
+        blocks.append((defs, "(%s + opt_case U_%d P_%d + wf_case P_%d + 1000 * fwd_case U_%d)" % (run_expr, k, k, k, k))); meta.append((text, calls, r1, name))
     files = vmcases.write_case_files(ctx, "C02", blocks)
     outs = ctx.eval_cases(files, timeout=900)
     codes = vmcases.collect_codes(ctx, files, outs, len(blocks))
+    frag = {"functions": 0, "inside_proved_fragment": 0, "of_which_the_pass_forwards": 0}
+    for n_, c in enumerate(codes):
+        if c is not None and c >= 1000:
+            fc = c // 1000
+            codes[n_] = c % 1000
+            frag["functions"] += fc // 10000; frag["inside_proved_fragment"] += (fc // 100) % 100; frag["of_which_the_pass_forwards"] += fc % 100
+    stats["single_block_functions"] = frag
     bad_spec = [x for x, c in zip(meta, codes) if c is not None and (c & 2 or c & 32)]
     bad_model = [x for x, c in zip(meta, codes) if c is not None and (c & 1 or c & 128)]
     stats["optimiser_model_unmodelled"] = sum(1 for c in codes if c is not None and c & 256)
@@ -127,7 +162,7 @@ def run(ctx):
     ctx.cov["programs"] = len(progs)
     ctx.cov["rule"] = ("a grid of (store, load) adjacency patterns {one pair, chain through two variables, triple chain, store to an argument, pair inside a loop} x the kind of user of the "
                        "forwarded load {return, binary operand, branch predicate, store source, index, call argument, cast, loop condition}, member/global flavours, constant casts to float and to "
-                       "int; plus the C01 generator's random programs, targeted vector store/load patterns (swizzle, repeated swizzle, component-wise operator, index, element write, swizzle write, constructor after a store) and the C04 generator's vector/matrix programs. Every program is compiled with optimisation off and on: accept/reject equal, VM results and globals equal on three "
+                       "int; plus the C01 generator's random programs, targeted vector store/load patterns (swizzle, repeated swizzle, component-wise operator, index, element write, swizzle write, constructor after a store) and the C04 generator's vector/matrix programs, and straight-line functions (declarations and assignments followed by reads, one block) for which the hypotheses of the preservation theorem are decided inside Coq on the real IR. Every program is compiled with optimisation off and on: accept/reject equal, VM results and globals equal on three "
                        "inputs; inside Coq the optimised IR is compared with the optimiser model applied to the real unoptimised IR, checked well-formed, and run on the VM model against "
                        "the reference semantics. Every program is distinct; all contain at least one store or cast and are counted non-trivial.")
     ctx.cov["samples"] = [{"name": n, "source": t[:300]} for t, c, r, n in meta[:3]]
